@@ -386,7 +386,18 @@ def check_contains(ck, sp, x, *, controls=False, validate=True):
     (space parameters that are Python values, candidate dtype and shape); candidate values and Box bounds symbolic"""
     fam = family(sp)
     cfg = f"{sp_label(sp)}|{cand_label(x)}"
-    paths = explore(contains_fn, sp, x, argnames=["sp", "x"], label=f"{fam}.contains")
+    try:
+        paths = explore(contains_fn, sp, x, argnames=["sp", "x"], label=f"{fam}.contains")
+    except Exception as ex:  # noqa: BLE001
+        # an exception other than the ones `explore` keeps as "raises" paths: if the real class raises it eagerly too
+        # (concrete candidate of this structure), contains does not answer -> violation; otherwise a harness problem
+        try:
+            sp.contains(jax.tree_util.tree_map(lambda l: jnp.zeros(l.shape, l.dtype) if hasattr(l, "dtype") else l, x))
+        except Exception as ex2:  # noqa: BLE001
+            if type(ex2) is type(ex):
+                ck.fact(f"{fam}.contains.scalar_bool@{cfg}", False, f"real {sp!r}.contains(zeros {cand_label(x)}) raises {ex2!r} instead of answering")
+                return
+        raise
     for dec, tr, exc in paths:
         if tr is not None:
             tr._argnames = ["sp", "x"]
@@ -416,7 +427,7 @@ def check_contains(ck, sp, x, *, controls=False, validate=True):
     pts = path_terms(paths, it, S)
     xs = tree_of(first, S, "x")
     oracle = z_member(sp, xs, S)
-    assume = int_range(S, [n for n in first.in_names if n == "x" or n.startswith("x_")])
+    assume = int_range(S, [n for n in first.in_names if n == "x" or n.startswith("x_")], INT_ABS if has_box(sp) else (1 << 31) - 1)
     goals = [disj([pc for pc, _, _, _ in pts])]
     for pc, res, exc, tr in pts:
         if exc is not None:
@@ -667,9 +678,22 @@ def check_sample(ck, sp, patterns=(None,)):
             want = py_member(sp_c, smp)
             got = sp_c.contains(smp)
             return (not want), {"space": repr(sp_c), "sample": describe(smp), "member_by_statement": want, "real_contains": fl(got), "draws_bound": w.hits}
-        ck.prove(f"{fam}.sample_member@{cfg}", assume, goal, replay=rp, nonlinear=bool(boxes))
+        ck.prove(f"{fam}.sample_member@{cfg}", assume, goal, replay=rp)
     if boxes:
         ck.witness(f"witness.{fam}.sample_assumptions@{sp_label(sp)}", assume)
+    if isinstance(sp, Box):
+        # negative control: "samples of a bounded box lie strictly inside" is wrong (the uniform draw may return low)
+        it = Interp()
+        S = tr.symbols(it)
+        wf = apply_boundedness(S, "sp", ("bounded",))
+        smp = tr.run(it, S)[tr.out_names[0]]
+        strict = conj([z3.And(S["sp_low"][i] < smp[i], smp[i] < S["sp_high"][i]) for i in np.ndindex(*smp.shape)])
+        ck.control(f"control.Box.sample_strictly_inside@{sp_label(sp)}", wf + stubs.contracts(it), strict)
+    if isinstance(sp, MultiDiscrete):
+        it = Interp()
+        S = tr.symbols(it)
+        smp = tr.run(it, S)[tr.out_names[0]]
+        ck.control(f"control.MultiDiscrete.sample_below_last_index@{sp_label(sp)}", stubs.contracts(it), conj([smp[i] < sp.nvec[i] - 1 for i in range(len(sp.nvec))]))
 
 
 def check_discrete_mask(ck, n):
@@ -728,6 +752,9 @@ def check_canonical(ck, sp):
         want = py_member(sp_c, c)
         return (not want), {"space": repr(sp_c), "canonical": describe(c), "member_by_statement": want, "real_contains": fl(sp_c.contains(c))}
     ck.prove(f"{fam}.canonical_member@{sp_label(sp)}", assume, goal, replay=rp, timeout=240 if ck.thorough else 60)
+    if isinstance(sp, Box):
+        # negative control: "canonical() is the lower bound" is wrong
+        ck.control(f"control.Box.canonical_is_low@{sp_label(sp)}", assume, conj([z3.fpEQ(c, l) for c, l in zip(can.reshape(-1), S["sp_low"].reshape(-1))]))
     if boxes:
         ck.witness(f"witness.{fam}.unbounded_box_allowed@{sp_label(sp)}", assume + [z3.fpIsInf(S[f"{boxes[0][0]}_low"].reshape(-1)[0]), z3.fpIsInf(S[f"{boxes[0][0]}_high"].reshape(-1)[0])])
 
@@ -914,6 +941,16 @@ def xhair_collect(ck, r):
         ck.queries += 1
         info["condition"] = name
         info["contract"] = r.post_of(name)
+        if name.startswith("control_"):
+            ob.kind = "control"
+            if verdict == "counterexample":
+                ob.status = "sat (as required)"
+            else:
+                ob.status = verdict
+                ob.detail = "a deliberately wrong contract must be refuted with a counterexample that replays"
+                ck.inconclusive.append(ob)
+                ck.log(f"INCONCLUSIVE {oid}: crosshair negative control came back {verdict}")
+            continue
         if verdict == "confirmed":
             ob.status = "unsat"
             ob.detail = "Confirmed over all paths"
